@@ -48,7 +48,17 @@ def dispatch_rules(ctx, report, b, an, pp, ns):
     lps, _irr, _d = loops.natural_loops(b)
     heads = set(lps)
     preds = b.compute_preds()
-    ppl = int(pp[1:])
+    # the cursor is a local `_N`, or a field `_N.f` of a local struct
+    ppl = int(pp[1:].split(".")[0])
+    ppf = pp.split(".")[1:]
+
+    def writes_cursor(s2):
+        if s2["s"] != "assign":
+            return False
+        if not ppf:
+            return s2["pl"]["l"] == ppl and not s2["pl"]["p"]
+        fs = [str(p0["n"]) for p0 in s2["pl"]["p"] if isinstance(p0, dict) and "f" in p0]
+        return fs == ppf
     n7 = 0
     found = None
     for D in sorted(dom[rbi], key=lambda x: -len(dom[x])):
@@ -66,8 +76,7 @@ def dispatch_rules(ctx, report, b, an, pp, ns):
             if x != D:
                 stack.extend(preds[x])
         region = fwd & back
-        reassigned = any(s2["s"] == "assign" and s2["pl"]["l"] == ppl and not s2["pl"]["p"]
-                         for x in region for s2 in b.blocks[x]["stmts"])
+        reassigned = any(writes_cursor(s2) for x in region for s2 in b.blocks[x]["stmts"])
         if reassigned:
             continue
         nodes = [n for n in an.entry if n[0] == D]
@@ -128,6 +137,30 @@ def dispatch_rules(ctx, report, b, an, pp, ns):
     report.sample({"rule": "R7-R9", "pointer": "%s & 0x3FFF under length byte >= 0xC0" % rd_syms[0], "label": "cursor, size += 1 + length"})
 
 
+def _op_key(b, defs, op):
+    """store key of the loop variable an operand reads: a local `_N`, or a field of a local struct `_N.field` (the loop state of
+    Name::parse gathered into a private struct and reached through `&mut self` of helpers inlined back)"""
+    cur = op
+    for _ in range(8):
+        if cur.get("o") not in ("copy", "move"):
+            return None
+        pl = cur["pl"]
+        if not pl["p"]:
+            d = mu.single_def(defs, pl["l"])
+            if d is None or d[1] == "term" or d[2].get("k") != "use":
+                return "_%d" % pl["l"]
+            cur = d[2]["op"]
+            continue
+        if any(not (p == "d" or (isinstance(p, dict) and "f" in p)) for p in pl["p"]):
+            return None
+        names = [str(p["n"]) for p in pl["p"] if isinstance(p, dict) and "f" in p]
+        base = mu.ref_root(b, defs, pl["l"]) if pl["p"][0] == "d" else pl["l"]
+        if base is None or not names:
+            return None
+        return "_%d.%s" % (base, ".".join(names))
+    return None
+
+
 def run(ctx):
     prog = ctx.prog
     report = Report("C06", ctx, "On <Name as WireFormat>::parse, from the numeric analysis of its MIR: R1 every label pushed has 1..=63 "
@@ -145,11 +178,11 @@ def run(ctx):
     #   ns   - the loop-carried counter compared with the 255-byte limit
     import re as _re
     dbg = b.local_names()
-    real_modes = [m for m in an.modes if not str(dbg.get(m, "")).startswith("inlined_helper_failed")]
+    real_modes = [m for m in an.modes if isinstance(m, str) or not str(dbg.get(m, "")).startswith("inlined_helper_failed")]
     report.count()
     if len(real_modes) != 1:
         viol(report, "C06-R6", b, "mode", "Name::parse no longer has exactly one constant-assigned boolean tracking whether a pointer was "
-             "followed (candidates: %s)" % [dbg.get(m) for m in real_modes])
+             "followed (candidates: %s)" % [m if isinstance(m, str) else dbg.get(m) for m in real_modes])
         return report.finish()
     flag = real_modes[0]
     fi = an.modes.index(flag)
@@ -164,7 +197,7 @@ def run(ctx):
         if e["root"] != "_1":
             continue
         for sname in e["off"].syms():
-            m = _re.search(r"\):(_\d+)$", sname)
+            m = _re.search(r"\):(_\d+(?:\.\w+)*)$", sname)
             if m:
                 cands.add(m.group(1))
     if len(cands) != 1:
@@ -174,7 +207,7 @@ def run(ctx):
     defs0 = mu.defs_of(b)
     loopvars = set()
     for n, (phis, incoming, back) in an.join_info.items():
-        loopvars |= set(k for k in phis if _re.match(r"^_\d+$", k))
+        loopvars |= set(k for k in phis if _re.match(r"^_\d+(\.\w+)*$", k))
     nsc = set()
     for bl in b.blocks:
         if bl["cleanup"]:
@@ -184,9 +217,9 @@ def run(ctx):
                 a0, b0 = st0["rv"]["a"], st0["rv"]["b"]
                 for x, y in ((a0, b0), (b0, a0)):
                     if y["o"] == "const" and y["k"].get("c") == "int" and int(y["k"]["v"]) in (254, 255, 256):
-                        l0 = mu.origin_local(b, defs0, mu.op_local(x))
-                        if l0 is not None and "_%d" % l0 in loopvars and "_%d" % l0 != pp:
-                            nsc.add("_%d" % l0)
+                        k0 = _op_key(b, defs0, x)
+                        if k0 is not None and k0 in loopvars and k0 != pp:
+                            nsc.add(k0)
     if len(nsc) != 1:
         report.lost_anchor("the size counter of Name::parse (loop-carried value compared with the 255-byte limit; candidates %s)" % sorted(nsc))
         return report.finish()
